@@ -8,16 +8,19 @@ from .e2 import Prog
 NO_CAPTURE_OPS = ("..", ">.", "=>[]", "<->", "|n>", "^^>")
 
 
-def capturize(row, site):
-    """every expression operand of the row becomes a block capture logging `c.<site>.<operand index>`"""
+def capturize(row, site, which=None):
+    """every expression operand of the row (or only operand `which`) becomes a block capture logging `c.<site>.<operand index>`"""
     # an untyped `|_|` inspect closure cannot be hoisted: its higher-ranked signature is only inferred at the call
     # site of the sync inspect helper (Rust closure inference, DESIGN §3.3/§3.16)
     if row.op in NO_CAPTURE_OPS or not row.operands or (row.op == "??" and row.operands[0].startswith("|_|")):
         return Op(row.op, [O(t) for t in row.operands]), 0
     ops = []
     for i, t in enumerate(row.operands):
-        ops.append(B('ev0("c.%s.%d"); %s' % (site, i, t)))
-    return Op(row.op, ops), len(ops)
+        if which is None or which == i:
+            ops.append(B('ev0("c.%s.%d"); %s' % (site, i, t)))
+        else:
+            ops.append(O(t))
+    return Op(row.op, ops), (len(ops) if which is None else 1)
 
 
 def heavy(b, tag):
@@ -68,9 +71,13 @@ def chain_programs(tier):
                     continue
             labels = "-".join(r.label for r in chain)
             # `~` placements: none / before the last operator / before every operator
-            for dmode in (0, 1, 2):
+            two = any(len(r.operands) == 2 and r.op in ("^@", "?^@") for r in chain)
+            for dmode in (0, 1, 2, 3, 4):
                 if dmode == 2 and len(chain) < 2:
                     continue
+                if dmode >= 3 and not two:
+                    continue  # 3 / 4: only the first / only the second operand of fold, try_fold is a block
+                which = None if dmode < 3 else dmode - 3
                 items = []
                 ncap = 0
                 step = 0
@@ -78,7 +85,7 @@ def chain_programs(tier):
                     deferred = (dmode == 1 and i == len(chain) - 1) or dmode == 2
                     if deferred:
                         step += 1
-                    it, n = capturize(row, "%d.0.%d" % (step, i + 1))
+                    it, n = capturize(row, "%d.0.%d" % (step, i + 1), which if len(row.operands) == 2 else None)
                     ncap += n
                     ops_seen.add(row.op)
                     it.deferred = deferred
